@@ -58,15 +58,20 @@ Fixpoint assoc {X V} (e : X -> X -> bool) (k : X) (l : list (X * V)) : option V 
 
 Definition lookup (G : grammar) (nt : string) : option rhs := assoc String.eqb nt (rules G).
 
+(* str and bytes payloads are identified through Latin-1 (units = code points / byte values):
+   a leaf parsed from a bytes input is a bytes object also where the grammar has a str literal *)
+Definition units_of (p : payload) : list N := match p with PStr s => s | PBytes b => b end.
+Definition units_eqb (p q : payload) : bool := list_eqb N.eqb (units_of p) (units_of q).
+
 Definition re_ok (G : grammar) (id : N) (p : payload) : bool :=
   match assoc N.eqb id (re_tab G) with
-  | Some l => existsb (payload_eqb p) l
+  | Some l => existsb (units_eqb p) l
   | None => false
   end.
 
 Definition term_accepts (G : grammar) (t : term) (l : leaf) : bool :=
   match t, l with
-  | TLit p, LPay q => payload_eqb p q
+  | TLit p, LPay q => units_eqb p q
   | TBit b, LBit c => Bool.eqb b c
   | TRe id, LPay q => re_ok G id q
   | _, _ => false
